@@ -11,18 +11,19 @@ ID = "C04"
 LEVEL = "model_checking"
 ALT_MOUNT = True
 _CFG = None
-ATTRS = {"none": None, "np": ("name", "ppid"), "n": {"name"}}          # (attrs as a tuple and as a set: any collection is documented)
+ATTRS = {"none": None, "np": ("name", "ppid"), "n": {"name"}, "e": ()}          # (attrs as a tuple and as a set: any collection is documented)
 
 
 class Cfg:
     def __init__(self, seed, thorough):
         base = 900 + (seed % 9) * 17
-        self.pid = {"A": base, "B": base + 5, "C": base + 11}
+        # (B's pid lies above the kernel's DEFAULT pid_max of 32768: pids go up to 4194304 when pid_max is raised)
+        self.pid = {"A": base, "B": base + 40005, "C": base + 11}
         self.tid = base + 3           # a thread id of A, between A and B
         self.absent = base + 7
         self.slots = ("A", "B", "C") if thorough else ("A", "B")
         self.max_gens = 2 if thorough else 1
-        self.attrs = ("none", "np") if not thorough else ("none", "np", "n")
+        self.attrs = ("none", "np", "e") if not thorough else ("none", "np", "n", "e")
         self.thorough = thorough
 
 
@@ -89,7 +90,8 @@ class Exec:
                 pass
         else:
             info = getattr(proc, "info", None)
-            if not isinstance(info, dict) or set(info) != set(attrs):
+            want = set(attrs) if len(attrs) else set(self.ps._as_dict_attrnames)      # an empty collection asks for everything
+            if not isinstance(info, dict) or set(info) != want:
                 self.viol("info-keys", "%s: pid %d info=%r, requested %r" % (where, proc.pid, info, attrs))
 
     def apply(self, ev):
